@@ -39,6 +39,7 @@ CORPUS_KEYS = {
     "try-under-toplevel-if": "C01 corpus try-under-toplevel-if",
     "if-inside-list-bracket": "C01 corpus if-inside-list-bracket",
     "list-import-lost-in-toplevel-if": "C01 corpus list-import-lost-in-toplevel-if",
+    "iterate-out-of-try": "C01 corpus iterate-out-of-try",
 }
 
 _uniq = itertools.count()
